@@ -60,8 +60,11 @@ def _dry_finish(R):
             return 2
     n = 0
     for o in R.obs:
-        if o.status == VIOLATION and not any(k.get('rule') == o.rule and k.get('construct') == o.construct and k.get('key') == o.key for k in known):
-            n += 1
+        if o.status == VIOLATION:
+            if any(k.get('rule') == o.rule and k.get('construct') == o.construct and k.get('key') == o.key for k in known):
+                o.status = 'KNOWN-FINDING'
+            else:
+                n += 1
     return 1 if n else 0
 
 
